@@ -93,6 +93,10 @@ Inductive case :=
         (delivered : list nat) (valeq tyeq crash : bool)               (* goroutines sending on ONE connection *)
 | CTypeIds (ids : list (list chunk))   (* OBSERVED: the ids RegisterMessage gave to the harness's message types,
                                           pairwise different Go types (two of them differ in the package only) *)
+| CStall (limit : N) (pool : list pentry) (items : list item) (cuts : cutspec)
+         (stall : nat)            (* the peer stalls after this many segments for longer than the read
+                                     timeout (the receiver's Read returns a timeout there), then continues *)
+         (delivered : list nat) (closed crash hung : bool)   (* OBSERVED at LRouter *)
 | CSeq (steps : list case).            (* cases executed one after the other in ONE fresh process
                                           (decoding with different suites in a given order) *)
 
@@ -186,6 +190,14 @@ Section WithTable.
   Definition model_local (items : list nat) : list nat :=
     map snd (local_handle reg dec (map (payload pb) items)).
 End WithTable.
+
+(* a read timeout ends the connection (ErrTimeout: handleConn returns): what is
+   dispatched is what the model receiver dispatches on the segments in front of
+   the stall, nothing of what the peer sends afterwards is parsed *)
+Definition model_stall (pool : list pentry) (limit : N) (items : list item) (cuts : cutspec) (stall : nat)
+  : list nat :=
+  let pb := pool_bytes pool in
+  fst (model_router pool pb limit (firstn stall (cut_segs cuts (model_wire pb items)))).
 
 Definition cev_eqb (a b : cev) : bool :=
   match a, b with
@@ -387,6 +399,9 @@ Fixpoint agree (c : case) : bool :=
   | CConc pool senders sends limit owire delivered _ _ crash =>
       negb crash && forallb (fun b => b) sends && conc_agree pool senders limit owire delivered
   | CTypeIds ids => typeids_ok ids
+  | CStall limit pool items cuts stall delivered closed crash hung =>
+      negb crash && negb hung && closed &&
+      nats_eqb delivered (model_stall pool limit items cuts stall)
   | CSeq steps => (fix all (l : list case) : bool :=
                      match l with [] => true | x :: r => agree x && all r end) steps
   end.
@@ -466,7 +481,10 @@ Definition wire_okb (expected d : list nat) (closed : bool) : bool :=
    8 a Send of a registered value returned an error (the harness never closes
      the sending side while it sends)
    9 an envelope's MsgType is not the type id of the value it carries
-   10 two different registered Go types have the same type id *)
+   10 two different registered Go types have the same type id
+   11 after a frame abandoned on a read timeout (the peer stalled inside it) the
+      connection was not closed, or something the peer sent afterwards was
+      parsed from the middle of the abandoned frame and dispatched *)
 (* a stream without garbage *)
 Definition clean_clauses (cl : list icls) (d : list nat) (closed : bool) : list nat :=
   let e_all := legit_all cl in
@@ -590,6 +608,9 @@ Fixpoint check (c : case) : list nat :=
       clause 5 (negb crash) ++ clause 4 valeq ++ clause 9 tyeq ++ clause 8 (all_true sends) ++
       clause 1 (is_merge delivered (conc_expected pool senders))
   | CTypeIds ids => clause 10 (typeids_ok ids)
+  | CStall limit pool items cuts stall delivered closed crash hung =>
+      clause 5 (negb crash) ++
+      clause 11 (closed && nats_eqb delivered (model_stall pool limit items cuts stall))
   | CSeq steps => (fix all (l : list case) : list nat :=
                      match l with [] => [] | x :: r => check x ++ all r end) steps
   end.
